@@ -5,6 +5,10 @@
 
 package odal
 
+// stored asset instances are handed out by AssetInstances and marshalled outside the lock: never written once stored
+//@ type odalpb.AssetInstance
+//@   immutable Id, AssetId, ParticipantId, EntityId
+
 //@ type State
 //@   guarded_by assetInstances : assetMutex
 //@   lock_level assetMutex = 45
